@@ -65,6 +65,29 @@ def _axis(kw, default=None):
     return ax
 
 
+def _has_exp(p):
+    stack = [p]
+    while stack:
+        y = stack.pop()
+        if isinstance(y, Poly):
+            for m, _ in y.terms:
+                for a, _p in m:
+                    if a.kind == "exp" and not a.args[0].is_const():
+                        return True
+                    stack.extend(x for x in a.args if isinstance(x, Poly))
+    return False
+
+
+def _user_log(a):
+    """np.log called by the code under verification: a log of exponentials is
+    an underflow hazard (float model, DESIGN §2.4) unless it is the trusted
+    np.logaddexp.reduce"""
+    a = P(a)
+    if _has_exp(a):
+        T.side("underflow", a, "log of a sum of exponentials")
+    return T.mk_log(a)
+
+
 class NPLinalg:
     def inv(self, m):
         used("np.linalg.inv")
@@ -165,6 +188,34 @@ class NP:
     def finfo(self, t=None):
         return FInfo(t)
 
+    def reduction(self, x, chunk, aggregate, axis=None, dtype=None, keepdims=False, **kw):
+        """dask.array.reduction (trusted contract, DESIGN §3): ``aggregate`` over
+        the concatenation, along ``axis``, of ``chunk`` applied to every block of
+        an arbitrary partition of that axis into consecutive blocks."""
+        used("da.reduction")
+        I = self._interp
+        x = lift(x)
+        if axis is None or not isinstance(axis, int):
+            raise ModelError("da.reduction over several axes")
+        axis = axis % x.ndim
+        if axis != 0:
+            raise ModelError("da.reduction along a non-leading axis")
+        tag, nb, sz, off = T.new_partition(x.shape[0], "red")
+        rest = x.shape[1:]
+
+        def block(b):
+            return Arr((sz(b),) + rest, lambda j, *r: x.fn(off(b) + j, *r), x.dtype, "numpy")
+        bsym = T.fresh("b")
+        bname = T.symname(bsym)
+        part = I.call(chunk, [block(bsym)], {"axis": axis, "keepdims": True})
+        if not isinstance(part, Arr) or not A.is_one(part.shape[0]):
+            raise ModelError("da.reduction: chunk result does not keep a unit axis")
+        stacked = Arr((nb,) + rest, lambda b, *r: T.subst(P(part.fn(ZERO, *r)), {bname: P(b)}), "real", "numpy")
+        res = I.call(aggregate, [stacked], {"axis": axis, "keepdims": keepdims})
+        if isinstance(res, Arr):
+            res.kind = "dask"
+        return res
+
     # ---- constructors
     def _mk(self, shape, val, like=None, dtype=None):
         if isinstance(shape, (int, Poly)):
@@ -249,7 +300,7 @@ class NP:
                 T.side("pos", Poly.const(0), "log of a non-positive constant")
                 return -math.inf
             return math.log(x)   # constants are evaluated by CPython
-        return ewise(lambda a: T.mk_log(P(a)), lift(x))
+        return ewise(_user_log, lift(x))
 
     def exp(self, x):
         used("np.exp")
@@ -391,11 +442,15 @@ class NP:
             xs = [lift(x) for x in xs]
             if all(isinstance(x, Arr) and x.ndim == 1 for x in xs):
                 return A.stack_list(xs)
+            if all(is_scalar(x) for x in xs):
+                return A.getitem(A.stack_list(xs), (slice(None), None))
             raise ModelError("vstack of non-1-d arrays")
         if isinstance(xs, SList):
             probe = xs.elem(T.fresh("p"))
             if isinstance(probe, Arr) and probe.ndim == 1:
                 return A.stack_list(xs)
+            if is_scalar(probe):
+                return A.getitem(A.stack_list(xs), (slice(None), None))
             raise ModelError("vstack of non-1-d arrays")
         raise ModelError("vstack of %s" % type(xs).__name__)
 
